@@ -499,7 +499,14 @@ class DigestAuthMiddleware:
             response = await handler(request)
 
             # Check if we need to authenticate
-            if not self._authenticate(response):
+            try:
+                needs_auth = self._authenticate(response)
+            except BaseException:
+                # Nobody else owns the challenge response yet: close it or
+                # its connection stays acquired.
+                response.close()
+                raise
+            if not needs_auth:
                 break
             if retry_count == 0:
                 # Free the connection of the challenge response, or the retry
